@@ -1,20 +1,379 @@
+// jpcheck decides structural clauses of the properties in
+// /verif/properties.jsonl for the go-jmespath working tree by static analysis
+// (go/packages + go/types + go/ssa). It never executes code of the analysed
+// repository. See /verif/DESIGN.md.
 package main
 
 import (
+	"encoding/json"
+	"flag"
 	"fmt"
-	"golang.org/x/tools/go/packages"
-	"golang.org/x/tools/go/ssa"
-	"golang.org/x/tools/go/ssa/ssautil"
-	_ "golang.org/x/tools/go/callgraph/vta"
-	_ "golang.org/x/tools/go/callgraph/cha"
-	_ "golang.org/x/tools/go/cfg"
+	"os"
+	"path/filepath"
+	"runtime/debug"
+	"sort"
+	"strings"
+	"time"
 )
 
+type ruleFn func(c *Ctx) *RuleResult
+
+var rules = map[string]ruleFn{}
+
+func register(name string, f ruleFn) { rules[name] = f }
+
+func (c *Ctx) run(name string) *RuleResult {
+	if r, ok := c.cache[name]; ok {
+		return r
+	}
+	f, ok := rules[name]
+	if !ok {
+		fatal("unknown rule %s", name)
+	}
+	r := f(c)
+	r.Name = name
+	for i := range r.Obs {
+		r.Obs[i].Rule = name
+	}
+	c.cache[name] = r
+	return r
+}
+
+// PropSpec: which rules decide which property, and the words for evidence.
+type PropSpec struct {
+	ID          string
+	Rules       []string
+	Explanation string
+	NotDecided  string
+}
+
+type knownFile struct {
+	Findings []knownFinding `json:"findings"`
+	Fixed    []fixedEntry   `json:"fixed"`
+}
+type knownFinding struct {
+	Property  string `json:"property"`
+	Rule      string `json:"rule"`
+	Construct string `json:"construct"`
+	What      string `json:"what"`
+}
+type fixedEntry struct {
+	Line string `json:"line"`
+}
+
+func verifDir() string {
+	if d := os.Getenv("VERIF_DIR"); d != "" {
+		return d
+	}
+	exe, err := os.Executable()
+	if err == nil {
+		d := filepath.Dir(filepath.Dir(exe))
+		if _, err := os.Stat(filepath.Join(d, "properties.jsonl")); err == nil {
+			return d
+		}
+	}
+	return "/verif"
+}
+
 func main() {
-	cfg := &packages.Config{Mode: packages.LoadAllSyntax, Dir: "/repo"}
-	pkgs, err := packages.Load(cfg, "./...")
-	if err != nil { panic(err) }
-	prog, spkgs := ssautil.AllPackages(pkgs, ssa.InstantiateGenerics)
-	prog.Build()
-	fmt.Println(len(pkgs), len(spkgs))
+	prop := flag.String("property", "", "property id (C01..C19)")
+	tier := flag.String("tier", "", "quick|thorough (default: $VERIF_TIER or quick)")
+	root := flag.String("repo", "/repo", "repository root")
+	explain := flag.String("explain", "", "replay file: re-decide that obligation on the current tree")
+	listRules := flag.Bool("rules", false, "list rules per property")
+	verbose := flag.Bool("v", false, "print every obligation")
+	noEvidence := flag.Bool("no-evidence", false, "do not write the evidence file")
+	flag.Parse()
+
+	if *listRules {
+		for _, p := range propSpecs() {
+			fmt.Printf("%s: %s\n", p.ID, strings.Join(p.Rules, " "))
+		}
+		return
+	}
+	if *tier == "" {
+		*tier = os.Getenv("VERIF_TIER")
+	}
+	if *tier == "" {
+		*tier = "quick"
+	}
+	if *tier != "quick" && *tier != "thorough" {
+		fatal("bad tier %q", *tier)
+	}
+
+	var replayOb *Ob
+	if *explain != "" {
+		b, err := os.ReadFile(*explain)
+		if err != nil {
+			fatal("%v", err)
+		}
+		var rp struct {
+			Property string `json:"property"`
+			Ob       Ob     `json:"obligation"`
+		}
+		if err := json.Unmarshal(b, &rp); err != nil {
+			fatal("%v", err)
+		}
+		*prop = rp.Property
+		replayOb = &rp.Ob
+	}
+	var spec *PropSpec
+	for _, p := range propSpecs() {
+		if p.ID == *prop {
+			pp := p
+			spec = &pp
+		}
+	}
+	if spec == nil {
+		fatal("unknown or unclaimed property %q", *prop)
+	}
+
+	start := time.Now()
+	code := 0
+	func() {
+		defer func() {
+			if r := recover(); r != nil {
+				if al, ok := r.(anchorLost); ok {
+					fmt.Printf("ANCHOR-LOST property=%s: %s\n", spec.ID, al.what)
+					fmt.Println("the code no longer has the shape the rules are anchored in; this is a checker failure, not a verdict")
+					code = 2
+					return
+				}
+				fmt.Printf("CHECKER-PANIC property=%s: %v\n%s\n", spec.ID, r, debug.Stack())
+				code = 2
+			}
+		}()
+		code = check(spec, *tier, *root, *verbose, replayOb, !*noEvidence && replayOb == nil, start)
+	}()
+	os.Exit(code)
+}
+
+type config struct{ tags, arch string }
+
+func check(spec *PropSpec, tier, root string, verbose bool, replayOb *Ob, writeEv bool, start time.Time) int {
+	vd := verifDir()
+	var known knownFile
+	if b, err := os.ReadFile(filepath.Join(vd, "known_findings.json")); err == nil {
+		if err := json.Unmarshal(b, &known); err != nil {
+			fatal("known_findings.json: %v", err)
+		}
+	}
+
+	configs := []config{{"", ""}}
+	if tier == "thorough" {
+		configs = append(configs, config{"verif", ""}, config{"", "386"})
+	}
+
+	type ruleStat struct {
+		Rule      string `json:"rule"`
+		Doc       string `json:"doc,omitempty"`
+		Instances int    `json:"instances"`
+		Floor     int    `json:"floor"`
+		Obs       int    `json:"obligations"`
+		OK        int    `json:"discharged"`
+		Viol      int    `json:"violations"`
+		Undecided int    `json:"undecided"`
+		Residual  int    `json:"residual"`
+	}
+	var stats []ruleStat
+	var all []Ob
+	var notes []string
+	fail := false
+	var cfgNames []string
+	var nfuncs, npkgs int
+	var firstVerdict map[string]string
+
+	for ci, cf := range configs {
+		c := load(root, cf.tags, cf.arch)
+		c.Tier = tier
+		cfgName := "default"
+		if cf.tags != "" {
+			cfgName = "tags=" + cf.tags
+		}
+		if cf.arch != "" {
+			cfgName = "GOARCH=" + cf.arch
+		}
+		cfgNames = append(cfgNames, cfgName)
+		verdict := map[string]string{}
+		for _, rn := range spec.Rules {
+			r := c.run(rn)
+			for _, o := range r.Obs {
+				verdict[o.Rule+"|"+o.Key] = o.Status
+			}
+			if ci > 0 {
+				continue
+			}
+			st := ruleStat{Rule: rn, Doc: r.Doc, Instances: r.Instances, Floor: r.Floor, Obs: len(r.Obs)}
+			for _, o := range r.Obs {
+				switch o.Status {
+				case OK:
+					st.OK++
+				case VIOL:
+					st.Viol++
+				case UNDECIDED:
+					st.Undecided++
+				case RESIDUAL:
+					st.Residual++
+				}
+			}
+			stats = append(stats, st)
+			all = append(all, r.Obs...)
+			notes = append(notes, r.Notes...)
+			if r.Instances < r.Floor {
+				fmt.Printf("VACUOUS rule=%s instances=%d floor=%d — the rule matched fewer constructs than the property implies; checker failure\n", rn, r.Instances, r.Floor)
+				fail = true
+			}
+		}
+		if ci == 0 {
+			firstVerdict = verdict
+			npkgs = len(c.Pkgs)
+			nfuncs = len(allFuncs(c.SLib)) + len(allFuncs(c.SCLI))
+		} else {
+			// thorough: verdicts must not depend on the build configuration
+			for k, v := range firstVerdict {
+				if verdict[k] != v {
+					fmt.Printf("CONFIG-DIFF %s: obligation %s is %q under default and %q under %s\n", spec.ID, k, v, verdict[k], cfgName)
+					fail = true
+				}
+			}
+			for k := range verdict {
+				if _, ok := firstVerdict[k]; !ok {
+					fmt.Printf("CONFIG-DIFF %s: obligation %s exists only under %s\n", spec.ID, k, cfgName)
+					fail = true
+				}
+			}
+		}
+	}
+
+	sortObs(all)
+	nOK, nViol, nUndec, nRes := 0, 0, 0, 0
+	var unlisted []Ob
+	var knownSeen []string
+	for _, o := range all {
+		switch o.Status {
+		case OK:
+			nOK++
+		case RESIDUAL:
+			nRes++
+		case UNDECIDED:
+			nUndec++
+		case VIOL:
+			nViol++
+		}
+		if replayOb != nil && (o.Rule != replayOb.Rule || o.Key != replayOb.Key) {
+			continue
+		}
+		if verbose || o.Status == VIOL || o.Status == UNDECIDED || replayOb != nil {
+			fmt.Printf("%-10s %-12s %s  [%s] %s\n    %s\n", o.Status, o.Rule, o.Pos, o.Func, o.Key, o.Detail)
+		}
+		if o.Status == VIOL {
+			listed := false
+			for _, k := range known.Findings {
+				if k.Property == spec.ID && k.Rule == o.Rule && k.Construct == o.Key {
+					listed = true
+					line := fmt.Sprintf("KNOWN-FINDING: property=%s %s [%s %s at %s]", spec.ID, k.What, o.Rule, o.Key, o.Pos)
+					fmt.Println(line)
+					knownSeen = append(knownSeen, line)
+				}
+			}
+			if !listed {
+				unlisted = append(unlisted, o)
+			}
+		}
+	}
+	if replayOb != nil {
+		return 0
+	}
+
+	exit := 0
+	if len(unlisted) > 0 {
+		exit = 1
+		rd := filepath.Join(vd, "evidence", "replay")
+		os.MkdirAll(rd, 0o755)
+		for i, o := range unlisted {
+			path := filepath.Join(rd, fmt.Sprintf("%s-%02d.json", spec.ID, i+1))
+			b, _ := json.MarshalIndent(map[string]interface{}{"property": spec.ID, "obligation": o,
+				"replay": "bin/jpcheck -explain " + path}, "", " ")
+			os.WriteFile(path, b, 0o644)
+			fmt.Printf("VIOLATION property=%s replay=%s\n", spec.ID, path)
+		}
+	}
+	if nUndec > 0 {
+		fmt.Printf("UNDECIDED property=%s: %d obligations could not be decided (checker failure, not a verdict)\n", spec.ID, nUndec)
+		fail = true
+	}
+	if fail && exit == 0 {
+		exit = 2
+	}
+
+	fmt.Printf("%s tier=%s configs=%s packages=%d functions=%d rules=%d obligations=%d discharged=%d violations=%d (known %d) undecided=%d residual=%d wall=%.1fs\n",
+		spec.ID, tier, strings.Join(cfgNames, ","), npkgs, nfuncs, len(spec.Rules), len(all), nOK, nViol, len(knownSeen), nUndec, nRes, time.Since(start).Seconds())
+
+	if writeEv {
+		var samples []Ob
+		// a spread of obligations: every violation, then up to 14 others from distinct rules
+		perRule := map[string]int{}
+		for _, o := range all {
+			if o.Status == VIOL || o.Status == UNDECIDED {
+				samples = append(samples, o)
+			}
+		}
+		for _, o := range all {
+			if o.Status == OK && perRule[o.Rule] < 3 && len(samples) < 40 {
+				perRule[o.Rule]++
+				samples = append(samples, o)
+			}
+		}
+		var residual []Ob
+		for _, o := range all {
+			if o.Status == RESIDUAL {
+				residual = append(residual, o)
+			}
+		}
+		sort.Strings(notes)
+		ev := map[string]interface{}{
+			"property_id": spec.ID,
+			"tier":        tier,
+			"seed":        seedEnv(),
+			"level":       "other",
+			"coverage": map[string]interface{}{
+				"explanation":        spec.Explanation,
+				"not_decided":        spec.NotDecided,
+				"obligations":        len(all) - nRes,
+				"discharged":         nOK,
+				"violations":         nViol,
+				"undecided":          nUndec,
+				"residual_sites":     residual,
+				"rules":              stats,
+				"samples":            samples,
+				"known_findings_seen": knownSeen,
+				"build_configs":      cfgNames,
+				"packages_analysed":  npkgs,
+				"functions_analysed": nfuncs,
+				"notes":              notes,
+				"checker_cmd":        "bin/jpcheck -property " + spec.ID + " -tier " + tier,
+				"trusted_base": []string{"go/types and go/ssa of golang.org/x/tools v0.29.0", "hand-written effect/kind models of the standard-library callees (checker/models.go)",
+					"absence of unsafe/cgo/reflect.Set/go statements (rule BAN checks it)"},
+			},
+			"assumptions": []string{
+				"static analysis of the sources only: no code of the repository is executed",
+				"the Go type checker and go/ssa construction are correct",
+				"standard-library callees behave as tabulated in the checker's model table",
+			},
+			"wall_s":     time.Since(start).Seconds(),
+			"violations": len(unlisted),
+		}
+		b, _ := json.MarshalIndent(ev, "", " ")
+		os.MkdirAll(filepath.Join(vd, "evidence"), 0o755)
+		if err := os.WriteFile(filepath.Join(vd, "evidence", spec.ID+".json"), b, 0o644); err != nil {
+			fatal("write evidence: %v", err)
+		}
+	}
+	return exit
+}
+
+func seedEnv() int {
+	var n int
+	fmt.Sscanf(os.Getenv("VERIF_SEED"), "%d", &n)
+	return n
 }
